@@ -5,11 +5,11 @@
 # observed slice sizes as inputs; per-class in-use counts and queue occupancy compared after every op;
 # the property oracle (in-use == 0 after closing everything) runs on every history.
 import json, os, re
-from vlib import core, gen
+from vlib import core, gen, sched
 
 PROP = "C09"
 META = {
-    "technique": "Coq proof: slot-ownership invariant (the location lists are a permutation of all slots) by induction over all histories, allocation choices and fault patterns - at API granularity (Model/Accounting.v) and at the granularity of the code's critical sections with every interleaving of user threads and both event loops (Model/AccountingConc.v); quiescence corollaries; tie: differential execution of BOTH models against real session pairs (sequential ops compared after every op, concurrent traffic phases compared at the following quiescent point) + independent in-use==0 oracle, also after phases in which closes race with the peer's flushes",
+    "technique": "Coq proof: slot-ownership invariant (the location lists are a permutation of all slots) by induction over all histories, allocation choices and fault patterns - at API granularity (Model/Accounting.v) and at the granularity of the code's critical sections with every interleaving of user threads and both event loops (Model/AccountingConc.v); quiescence corollaries; tie: differential execution of BOTH models against real session pairs (sequential ops compared after every op, concurrent traffic phases compared at the following quiescent point) + independent in-use==0 oracle, also after phases in which closes race with the peer's flushes; plus mechanism S for the event-loop/owner hand-off: the real Stream.fillDataToReadBuffer and Stream.Close as controlled threads (instrumented stream.go, pendingData mutex as scheduling point) under every single-pre-emption schedule, with the leak oracle after each and the observed access order (pendingData.add before the state re-check) compared with the model's LoopAdd/LoopCheck order",
     "level_text": "C09_inv / C09_inv_interleaved (every slot in exactly one location, for every history resp. every interleaving of critical sections, every allocation outcome and fault pattern) and C09 / C09_interleaved (once every stream is closed on both ends - every close() has returned, both event loops are between elements -, nothing is in flight and the application holds nothing, every slot is free) hold unconditionally for the current tree, whose recycle() cleans the pinned list (switch sw_recycle_cleans_pinned regenerated from buffer.go on every run; Props/C09.v stops compiling if the call disappears). The former defect (pinned slices leaked at Close: 4096 B stayed in use) is repaired by a234a74; its history stays as directed case 0 of every run and as a regression Example about the old-code variant of the model.",
     "level_note": "Trusted: coqc kernel; allocation and slice sizes are inputs of the model (the allocator itself is C01/C02's subject); the fine-grained model keeps Write/Flush/Release/Reuse atomic (they touch owner-local buffers, the free lists - atomic per slot, C01/C02 - and one atomic queue put) and assumes one owner thread per stream object; socket events (fallback data, close notification) carry no slots and are delivered in one step; correspondence is sampled; event-loop delivery is waited for with generous bounds.",
 }
@@ -208,6 +208,50 @@ def collect_oracle(cases):
     return res
 
 
+def instrument_stream():
+    """stream.go instrumented by go/verisched (atomics) plus - done here, textually, on the instrumented copy - the
+    pendingData mutex as a scheduling point: r.Lock()/r.Unlock() in the methods of *pendingData and
+    s.pendingData.Lock()/Unlock() become vsLock/vsUnlock.  Returns (overlay dict, error)."""
+    ov, rep, err = sched.instrument(["stream.go"])
+    if err:
+        return None, err
+    key = os.path.join(core.REPO, "stream.go")
+    src = open(ov[key]).read()
+    n = [0]
+
+    def in_pending(m):
+        body = m.group(0)
+        body, k1 = re.subn(r"\br\.Lock\(\)", "vsLock(&r.Mutex)", body)
+        body, k2 = re.subn(r"\br\.Unlock\(\)", "vsUnlock(&r.Mutex)", body)
+        n[0] += k1 + k2
+        return body
+    src = re.sub(r"func \(r \*pendingData\) \w+\(.*?\n}\n", in_pending, src, flags=re.S)
+    src, k3 = re.subn(r"\bs\.pendingData\.Lock\(\)", "vsLock(&s.pendingData.Mutex)", src)
+    src, k4 = re.subn(r"\bs\.pendingData\.Unlock\(\)", "vsUnlock(&s.pendingData.Mutex)", src)
+    if n[0] < 4:
+        return None, "cannot find the pendingData critical sections in stream.go (found %d Lock/Unlock)" % n[0]
+    d = os.path.join(core.WORK, "inst_c09_" + core.tree_hash())
+    os.makedirs(d, exist_ok=True)
+    p = os.path.join(d, "stream.go")
+    with open(p, "w") as fh:
+        fh.write(src)
+    return {key: p}, None
+
+
+def run_sched(tag):
+    """mechanism S part: fillDataToReadBuffer vs Close under every single-pre-emption schedule."""
+    ov, err = instrument_stream()
+    if err:
+        return None, "instrumenting stream.go failed: " + err
+    outp = os.path.join(core.WORK, "c09s_%s_%d.jsonl" % (tag, os.getpid()))
+    rc, out, secs = core.go_test(PROP, "^TestVerif_C09Sched$", {"VERIF_OUT": outp}, extra_replace=ov, timeout=900)
+    if rc != 0 or not os.path.exists(outp):
+        return None, "scheduled harness failed (rc=%d): %s" % (rc, out[-2500:])
+    cases = [json.loads(l) for l in open(outp)]
+    os.unlink(outp)
+    return cases, None
+
+
 def check(run):
     data, gerr = gen.regenerate()
     if gerr:
@@ -249,6 +293,32 @@ def check(run):
             run.add_corr_break("D: case %s: after op %s (%s) the model and the real session pair differ in: %s"
                                % (c["id"], step, o.get("op"), FIELDS.get(field, field)),
                                dict(brief(c, step), differs_in=FIELDS.get(field, field), model_fx=fx))
+    # ---- mechanism S: the event loop's delivery against the owner's Close, on the real functions ----
+    scases, serr = run_sched(run.tier)
+    sched_cov = {}
+    if serr:
+        run.add_corr_break("S: " + serr)
+        scases = []
+    order = set()
+    for sc in scases:
+        if "HARNESS" in (sc.get("note") or ""):
+            run.add_corr_break("S: schedule %s: %s" % (sc.get("id"), sc["note"]), sc)
+        for m in sc.get("oracle") or []:
+            sig, _, what = m.partition("|")
+            run.add_oracle_failure(sig, what, {"scheduled_scenario": "a real server stream receives a second element (Stream.fillDataToReadBuffer, thread 0) while its owner runs Stream.Close() (thread 1); one shared access per step",
+                                               "strategy": sc.get("strategy"), "schedule": sc.get("schedule"), "event_loop_accesses": sc.get("t1_accesses"),
+                                               "inuse_after": sc.get("inuse"), "pending_after": sc.get("pending")})
+        acc = sc.get("t1_accesses") or []
+        locks = [i for i, a in enumerate(acc) if a[0] == 4]
+        loads = [i for i, a in enumerate(acc) if a[0] == 0 and a[1] == 0]
+        if locks and loads:
+            order.add("add-then-check" if locks[0] < loads[0] else "check-then-add")
+    if scases and order != {"add-then-check"}:
+        run.add_corr_break("S: fillDataToReadBuffer does not take the pendingData lock (add) before it loads the stream state (re-check): observed %s; "
+                           "Model/AccountingConc.v has LoopAdd before LoopCheck - with the opposite order a Close between the two leaves the element in a closed stream" % sorted(order),
+                           {"event_loop_accesses": [sc.get("t1_accesses") for sc in scases[:3]]})
+    sched_cov = {"scheduled_cases": len(scases), "event_loop_access_order": sorted(order),
+                 "schedules": [sc.get("strategy") for sc in scases]}
     feats, opmix, distinct, nops = {}, {}, set(), 0
     for c in cases:
         for f in set(c["feat"]):
@@ -270,6 +340,7 @@ def check(run):
         "histories_rerun_after_an_expired_harness_wait": sum(1 for c in cases if c.get("retries")),
         "expired_waits": [w for c in cases for w in (c.get("expired") or [])][:10],
         "queue_caps": sorted({c["qcap"] for c in cases}),
+        "scheduled_delivery_vs_close": sched_cov,
         "model_switch_fx_recycle_cleans_pinned": fx,
         "model_switch_chosen_because": fdesc,
         "oracle_failures_by_signature": {s: sum(1 for f in run.oracle_failures if f["signature"] == s) for s in sorted({f["signature"] for f in run.oracle_failures})},
@@ -281,6 +352,7 @@ def check(run):
         "the harness moves pendingData into recvBuf (what readMore does first) before each read so that reads never block",
         "harness waits poll up to 60 s; a history in which a wait expires is re-run from scratch (fresh sessions, same seed) up to 2 more times; only a wait that expires in all 3 runs is reported, as an oracle failure (C09:peer-never-drains-queue / C09:socket-event-never-reaches-peer)",
         "data for unknown streams and queue-full are induced by putting elements into the real queue without a wake-up; exhaustion by holding all but k slots via bufferManager.allocShmBuffer",
+        "mechanism S part: go/verisched instruments the atomics of stream.go; props/C09.py additionally turns the pendingData mutex into a scheduling point (textual rewrite of the instrumented copy); sequential consistency; schedules = all single pre-emptions of {fillDataToReadBuffer, Close}",
         "an unused tail behind the write slice (done()'s trimming branch) cannot be produced through BufferWriter; it is exercised only with VERIF_C09_PREALLOC=1"]
 
     def search():
